@@ -74,6 +74,8 @@ structure St where
   ups : List PState := []         -- sent during the current operation
   evs : List Ev := []             -- what the stub children saw during the current operation
   queue : List (Nat × PState) := []  -- childBalancerStateUpdate (replayed cached states)
+  pending : List (Nat × Int) := []   -- init-timer callbacks that were dispatched (their timer fired) but have
+                                     -- not yet obtained the balancer's mutex: (child name, deadline of that timer)
 deriving Repr
 
 def init : St := {}
@@ -226,9 +228,31 @@ def timerFire (s : St) (n : Nat) : St :=
 def cacheExpire (s : St) (n : Nat) : St :=
   { s with sbs := s.sbs.filter (·.name ≠ n), evs := s.evs ++ [Ev.close n] }
 
-/-- earliest pending timer event at or before `target`: (deadline, isCache, name) -/
+/-- The init timer of child n fires: its callback goroutine is started and waits for the balancer's
+    mutex.  Until it runs `initTimer` is still set.  (child name, deadline) identifies the timer: a
+    timer is dispatched at its deadline D and every timer armed later has a deadline > D. -/
+def dispatch (s : St) (n : Nat) : St :=
+  match findChild s n with
+  | none => s
+  | some c =>
+    match c.timer with
+    | none => s
+    | some d => if d ≤ s.now ∧ !s.pending.contains (n, d) then { s with pending := s.pending ++ [(n, d)] } else s
+
+/-- The oldest dispatched callback obtains the mutex.  `timerW.stopped` is false exactly when the
+    child's current timer is still the one this callback belongs to; otherwise it returns at once. -/
+def runCallback (s : St) : St :=
+  match s.pending with
+  | [] => s
+  | (n, d) :: rest =>
+    let s := { s with pending := rest }
+    match findChild s n with
+    | none => s
+    | some c => if c.timer = some d then timerFire s n else s
+
+/-- earliest timer event at or before `target` that has not been dispatched: (deadline, isCache, name) -/
 def nextDue (s : St) (target : Int) : Option (Int × Bool × Nat) :=
-  let inits := s.children.filterMap fun c => c.timer.map fun t => (t, false, c.name)
+  let inits := s.children.filterMap fun c => c.timer.bind fun t => if s.pending.contains (c.name, t) then none else some (t, false, c.name)
   let caches := s.sbs.filterMap fun b => b.cachedUntil.map fun t => (t, true, b.name)
   (inits ++ caches).foldl (fun best e =>
     if e.1 ≤ target then
@@ -237,22 +261,25 @@ def nextDue (s : St) (target : Int) : Option (Int × Bool × Nat) :=
       | some b => if e.1 < b.1 then some e else some b
     else best) none
 
-/-- virtual time passes until `target`; due timers fire in time order -/
-def sleepTo : Nat → St → Int → St
+/-- virtual time passes until `target`; due timers fire in time order.  With `hold` the callbacks
+    of init timers are only dispatched (they park before taking the mutex). -/
+def sleepTo (hold : Bool) : Nat → St → Int → St
   | 0, s, target => { s with now := target }
   | fuel + 1, s, target =>
     match nextDue s target with
     | none => { s with now := max s.now target }
     | some (t, isCache, n) =>
       let s := { s with now := max s.now t }
-      sleepTo fuel (if isCache then cacheExpire s n else timerFire s n) target
+      sleepTo hold fuel (if isCache then cacheExpire s n else if hold then dispatch s n else timerFire s n) target
 
 /-! ## histories -/
 
 inductive Op
   | update (prios : List Nat) (kids : List (Nat × Nat))
   | child (n conn : Nat)
-  | timer (n : Nat)       -- the init timer of child n fires (only if it is armed)
+  | timer (n : Nat)       -- the init timer of child n fires and its callback runs at once (only if it is armed)
+  | dispatch (n : Nat)    -- the init timer of child n fires (deadline reached); the callback waits for the mutex
+  | runcb                 -- the oldest waiting callback runs
   | expire (n : Nat)      -- the cache entry of sub-balancer n times out (only if it is cached)
   | advance (d : Nat)
 deriving Repr
@@ -266,6 +293,8 @@ def step (s : St) : Op → St
     match findChild s n with
     | some c => if c.timer.isSome then timerFire (clearOut s) n else clearOut s
     | none => clearOut s
+  | .dispatch n => dispatch (clearOut s) n
+  | .runcb => runCallback (clearOut s)
   | .expire n =>
     match findSb s n with
     | some b => if b.cachedUntil.isSome then cacheExpire (clearOut s) n else clearOut s
